@@ -344,6 +344,76 @@ func (g *G) c13MixedPat() c13PatFn {
 	}
 }
 
+// c13GoNative: the pattern as a Go programmer writes it inline: whole numbers as int / int64 / float32, a list of
+// strings as []string, a map of strings as map[string]string (Compile canonicalises all of them)
+func c13GoNative(x interface{}, depth int) interface{} {
+	switch v := x.(type) {
+	case float64:
+		if v == float64(int64(v)) {
+			switch depth % 3 {
+			case 0:
+				return int(v)
+			case 1:
+				return int64(v)
+			}
+			return float32(v)
+		}
+		return v
+	case []interface{}:
+		allStr := len(v) > 0
+		for _, y := range v {
+			if _, is := y.(string); !is {
+				allStr = false
+			}
+		}
+		if allStr {
+			acc := make([]string, len(v))
+			for i, y := range v {
+				acc[i] = y.(string)
+			}
+			return acc
+		}
+		acc := make([]interface{}, len(v))
+		for i, y := range v {
+			acc[i] = c13GoNative(y, depth+1)
+		}
+		return acc
+	case map[string]interface{}:
+		allStr := len(v) > 0
+		for _, y := range v {
+			if _, is := y.(string); !is {
+				allStr = false
+			}
+		}
+		if allStr {
+			acc := make(map[string]string, len(v))
+			for k, y := range v {
+				acc[k] = y.(string)
+			}
+			return acc
+		}
+		acc := make(map[string]interface{}, len(v))
+		for k, y := range v {
+			acc[k] = c13GoNative(y, depth+1)
+		}
+		return acc
+	}
+	return x
+}
+
+// native inline: strings must be text under the json syntax; everything else inline with Go-native types
+func (g *G) c13NativePat(stringsAsText bool) c13PatFn {
+	return func(i int, p interface{}) (interface{}, bool) {
+		if p == nil {
+			return nil, false
+		}
+		if _, is := p.(string); is && stringsAsText {
+			return g.c13SpacedJSON(p, true), true
+		}
+		return c13GoNative(deepCopy(p, nil), i), true
+	}
+}
+
 func (s *c13CSource) goSource() *core.ActionSource {
 	if s == nil {
 		return nil
@@ -491,6 +561,20 @@ func c13NormDecoded(x interface{}) (interface{}, bool) {
 		return float64(v), true
 	case uint64:
 		return float64(v), true
+	case float32:
+		return float64(v), true
+	case []string:
+		acc := make([]interface{}, len(v))
+		for i, y := range v {
+			acc[i] = y
+		}
+		return acc, true
+	case map[string]string:
+		acc := make(map[string]interface{}, len(v))
+		for k, y := range v {
+			acc[k] = y
+		}
+		return acc, true
 	case []interface{}:
 		acc := make([]interface{}, len(v))
 		for i, y := range v {
@@ -746,6 +830,8 @@ func (g *G) c13Loaders(d *c13CDoc, syntaxOverride string) []*c13Loader {
 		{name: "go-inline-empty", force: true, ints: std, load: func() (*core.Spec, error) { return d.goSpec(empty, c13InlinePat), nil }},
 		{name: "go-text", force: true, ints: std, load: func() (*core.Spec, error) { return d.goSpec(js, g.c13TextPat(false, true)), nil }},
 		{name: "go-mixed", force: true, ints: std, load: func() (*core.Spec, error) { return d.goSpec(js, g.c13MixedPat()), nil }},
+		{name: "go-native-none", force: true, ints: std, load: func() (*core.Spec, error) { return d.goSpec(none, g.c13NativePat(false)), nil }},
+		{name: "go-native-json", force: true, ints: std, load: func() (*core.Spec, error) { return d.goSpec(js, g.c13NativePat(true)), nil }},
 		{name: "go-inline-noforce", force: false, ints: std, load: func() (*core.Spec, error) { return d.goSpec(none, c13InlinePat), nil }},
 		{name: "go-text-noforce", force: false, ints: std, load: func() (*core.Spec, error) { return d.goSpec(js, g.c13TextPat(true, false)), nil }},
 		{name: "json-inline", force: true, ints: std, load: func() (*core.Spec, error) { return c13ViaJSON(d.docMap(c13JsonKeys, empty, c13InlinePat)) }},
@@ -780,6 +866,13 @@ func (g *G) c13Loaders(d *c13CDoc, syntaxOverride string) []*c13Loader {
 				return spec, err
 			}})
 	}
+	// hosts that know no interpreter, or only another one: compiled last, after the same sources compiled fine above
+	// (an unknown interpreter is rejected whatever was compiled before)
+	ls = append(ls,
+		&c13Loader{name: "go-inline-noints", force: true, ints: core.InterpretersMap{},
+			load: func() (*core.Spec, error) { return d.goSpec(none, c13InlinePat), nil }},
+		&c13Loader{name: "json-inline-otherints", force: true, ints: core.InterpretersMap{"other-engine": std["ecmascript"]},
+			load: func() (*core.Spec, error) { return c13ViaJSON(d.docMap(c13JsonKeys, empty, c13InlinePat)) }})
 	return ls
 }
 
